@@ -235,6 +235,7 @@ class Printer:
         self.membermap = unit.get('membermap', {})
         self.freevars = OrderedDict()       # for fragments: decl id -> (name, ctype, isvec)
         self.fragment = False
+        self.freevar_kind = {}
         self._ret_target = None
         self.local_ids = set()
 
@@ -324,6 +325,7 @@ class Printer:
                 if rd['id'] not in self.freevars:
                     q = rd['type']['qualType']
                     self.freevars[rd['id']] = (nm, self.T.c(q, rd['type'].get('desugaredQualType')))
+                    self.freevar_kind[rd['id']] = rd['kind']
                 self.fire('expr:free-variable')
                 return '(*%s)' % nm
             if self.decl_ref.get(rd['id']):
